@@ -33,6 +33,11 @@ def build(repo, findings):
         Err(_) => true,       // evaluation of offset/length may fail; the bash error case is the next clause
     }
 })'''),
+        C('C06 no-other-error (a substring that ends exactly where it starts is empty, not an error)', '''({
+    let n = expanded_parameter.plen() as int;
+    let l = match length { Some(e) => Some(e.val() as int), None => None::<int> };
+    (offset.evaluates() && (length is Some ==> length->Some_0.evaluates()) && sub_bounds(n, expanded_parameter.from_array, offset.val() as int, l) is Some) ==> res is Ok
+})'''),
         C('C06 negative-length-before-start-is-an-error', '''(length is Some && length->Some_0.val() < 0 && (expanded_parameter.from_array
     || expanded_parameter.plen() + length->Some_0.val() < start_of(expanded_parameter.plen() as int, offset.val() as int))) ==> res is Err'''),
     ])
@@ -40,6 +45,6 @@ def build(repo, findings):
     u.raw(FOOTER)
     u.assume('assume_specification', 'contracts/std/int_ops.rs incl. core::cmp::min (discharged by Kani in the thorough tier)')
     u.assume('external_body', 'Expansion::polymorphic_len / polymorphic_subslice are stubs (the subslice body — chars/skip/take/collect — is NOT verified by Verus; its panic-freedom precondition `index <= end && index <= len` is what this unit proves at the call site); ArithExpr::eval is abstract; vx_format stands for format!; Shell, ExecutionParameters opaque')
-    u.assume('uninterp', 'Expansion::plen, slice_of, ArithExpr::val')
+    u.assume('uninterp', 'Expansion::plen, slice_of, ArithExpr::val / evaluates')
     u.expected_min_fns = 1
     return u
